@@ -173,17 +173,20 @@ Proof. vm_compute. repeat split. eexists. split; reflexivity. Qed.
     classes nested_in_unit / ring_in_unit, and the two harmless shapes "multiplier 1 on a branch with nested branches or
     rings" and "the one nested shape the code expands correctly" (bounded only: C05_small); (b) stale_recipe; (c) NODE
     multipliers are written out on flat strings (C05_nodes_partial), not in this AST-level statement: [expand_branches],
-    not [expand]; (d) texts without braces. *)
-Theorem C05_branch_ast_partial : forall fo a, units_ok fo a = true -> read_cgsmiles fo (print true a) = denote fo a.
-Proof. exact reader_sim_units. Qed.
-Theorem C05_branch_ast_longhand_partial : forall fo a, units_ok fo a = true ->
+    not [expand].  Texts with braces (base graphs) and without (coarse fragment texts) are both covered. *)
+Theorem C05_branch_ast_partial : forall fo braces a, units_ok fo a = true -> read_cgsmiles fo (print braces a) = denote fo a.
+Proof. exact reader_sim_units_gen. Qed.
+Theorem C05_branch_ast_longhand_partial : forall fo braces a, units_ok fo a = true ->
   wf fo (expand_branches a) = true -> has_branch_mult (expand_branches a) = false ->
-  read_cgsmiles fo (print true a) = read_cgsmiles fo (print true (expand_branches a)).
+  read_cgsmiles fo (print braces a) = read_cgsmiles fo (print braces (expand_branches a)).
 Proof. exact reader_units_longhand. Qed.
 (** the flat level behind it: multiplied branches followed by closings, items that close several branches *)
 Theorem C05_branch_flat_closings : forall fo l, g2segs_ok fo l = true ->
   read_cgsmiles fo ("{"%char :: g2segs_str l ++ ["}"%char]) = denote_g2 fo l.
 Proof. exact reader_sim_g2. Qed.
+Theorem C05_branch_flat_closings_nobrace : forall fo l, g2segs_ok fo l = true -> l <> [] ->
+  read_cgsmiles fo (g2segs_str l) = denote_g2 fo l.
+Proof. exact reader_sim_g2_nobrace. Qed.
 (** BOUNDED coverage of the side condition: on the complete enumerated list, every well-formed AST outside the three
     open classes whose multiplied branches are simple chains satisfies [units_ok] (so the unbounded theorem applies to
     it); [units_ok] also holds for 100 enumerated ASTs that the (coarser) class predicate stale_recipe flags *)
@@ -205,8 +208,9 @@ Example C05_branch_ast_nonvacuous :
   /\ wf fo0 (expand_branches a) = true /\ has_branch_mult (expand_branches a) = false
   /\ print true a = S "{[#X]([#A]([#B])([#C][#D]|2)=|2)[#F]$([#G])([#H])|3}"
   /\ print true (expand_branches a) = S "{[#X]([#A]([#B])([#C][#D]|2)=[#A]([#C][#D]|2))[#F]$([#G])([#H])[#F]([#H])[#F]([#H])}"
-  /\ exists g, read_cgsmiles fo0 (print true a) = Ok g /\ length (nodes_data g) = 17%nat.
-Proof. vm_compute. repeat split. eexists. split; reflexivity. Qed.
+  /\ (exists g, read_cgsmiles fo0 (print true a) = Ok g /\ length (nodes_data g) = 17%nat)
+  /\ (exists g, read_cgsmiles fo0 (print false a) = Ok g /\ length (nodes_data g) = 17%nat).
+Proof. vm_compute. repeat split; eexists; split; reflexivity. Qed.
 
 (** BOUNDED: on the complete enumerated list [small_c05] (ASTs with <= 3 nodes and up to two multipliers
     from {2,3} on nodes / {1,2,3} on branches, symbols {none,#}; and <= 4 nodes, multipliers 2 on nodes /
